@@ -8,8 +8,8 @@
 // Checksums are ignored() everywhere (C08's subject).
 // Enum-with-unknown fields are generated with `T::from(raw)` — `Unknown(x)` with x a known code is not a
 // value the crate ever produces (the From<u8/u16> impls are the only constructors used by parsers).
-// `finding_*` harnesses (kind=finding) assert inside a region where the unchanged crate is expected to fail;
-// the matching `rt_*` harness excludes exactly that region.
+// `finding_*` harnesses: those marked kind=finding assert inside a region where the crate still fails (the matching
+// `rt_*` harness stays outside it); the others are regression checks for defects that have been fixed (fix: commits).
 #[cfg(all(
     feature = "medium-ethernet",
     feature = "medium-ieee802154",
@@ -323,18 +323,14 @@ mod v_wire_roundtrip {
         Duration::from_millis(ds * 100)
     }
 
-    fn igmp_roundtrip(repr: IgmpRepr, stale_byte1_excluded: bool) {
+    fn igmp_roundtrip(repr: IgmpRepr) {
         let n = repr.buffer_len();
         let mut b1 = [0u8; 8];
         let mut b2: [u8; 8] = kani::any();
         repr.emit(&mut IgmpPacket::new_unchecked(&mut b1[..n]));
         repr.emit(&mut IgmpPacket::new_unchecked(&mut b2[..n]));
-        // bytes 2..4 are the checksum over the whole message (C08): compared too unless byte 1 is excluded
-        if stale_byte1_excluded {
-            indep!(b1, b2, n, k => k != 1 && k != 2 && k != 3);
-        } else {
-            indep!(b1, b2, n);
-        }
+        // every byte, including the checksum (bytes 2..4) computed over the whole message
+        indep!(b1, b2, n);
         let p = IgmpPacket::new_checked(&b1[..n]);
         assert!(p.is_ok(), "prop:c06_emitted_packet_passes_new_checked");
         let back = IgmpRepr::parse(&p.unwrap());
@@ -356,12 +352,12 @@ mod v_wire_roundtrip {
         let code: u8 = kani::any();
         let (version, max_resp_time) = if code == 0 { (IgmpVersion::Version1, Duration::from_millis(0)) } else { (IgmpVersion::Version2, igmp_code_to_duration(code)) };
         let repr = IgmpRepr::MembershipQuery { max_resp_time, group_addr: any_group(), version };
-        igmp_roundtrip(repr, false);
+        igmp_roundtrip(repr);
         kani::cover!(code == 0xff, "largest floating-point code");
         kani::cover!(code == 0, "IGMPv1 query");
     }
 
-    // @harness props=C06 cfg=KW tier=q to=300 mem=4 unwind=12 opts=nomem covers=2 funcs=wire::igmp::Repr::emit;wire::igmp::Repr::parse bounds=report_v1_v2;_leave_(byte_1_excluded_from_the_stale_buffer_check_for_leave)
+    // @harness props=C06 cfg=KW tier=q to=300 mem=4 unwind=12 opts=nomem covers=2 funcs=wire::igmp::Repr::emit;wire::igmp::Repr::parse bounds=report_v1_v2;_leave
     #[kani::proof]
     pub(crate) fn rt_igmp_report_leave() {
         let leave: bool = kani::any();
@@ -371,13 +367,13 @@ mod v_wire_roundtrip {
         } else {
             IgmpRepr::MembershipReport { group_addr: any_group(), version: if v1 { IgmpVersion::Version1 } else { IgmpVersion::Version2 } }
         };
-        igmp_roundtrip(repr, leave);
+        igmp_roundtrip(repr);
         kani::cover!(leave, "leave group");
         kani::cover!(!leave && v1, "IGMPv1 report");
     }
 
-    // LeaveGroup: emit never writes the Max Resp Code byte (offset 1), so it keeps the old buffer contents
-    // @harness props=C06 cfg=KW tier=q kind=finding to=300 mem=4 unwind=12 opts=nomem covers=1 funcs=wire::igmp::Repr::emit bounds=leave_group;_byte_1
+    // regression: LeaveGroup emit used not to write the Max Resp Code byte (offset 1)
+    // @harness props=C06 cfg=KW tier=q to=300 mem=4 unwind=12 opts=nomem covers=1 funcs=wire::igmp::Repr::emit bounds=leave_group;_byte_1
     #[kani::proof]
     pub(crate) fn finding_igmp_leave_stale_max_resp_code() {
         let repr = IgmpRepr::LeaveGroup { group_addr: any_group() };
@@ -442,8 +438,8 @@ mod v_wire_roundtrip {
     }
 
     /// DstUnreachable / TimeExceeded carrying an IPv4 header + 8 bytes of the offending datagram.
-    /// `hdr_payload_len`: payload length recorded in the embedded header; parse() re-derives it from the bytes
-    /// present, so identity is only claimed for hdr_payload_len == data.len() (see finding_icmpv4_error_cut_payload).
+    /// `hdr_payload_len`: payload length recorded in the embedded header (that of the original datagram, which is
+    /// normally longer than the quoted bytes).
     fn icmpv4_error<'a>(time_exceeded: bool, data: &'a [u8], hdr_payload_len: usize) -> Icmpv4Repr<'a> {
         let header = Ipv4Repr { src_addr: any_v4(), dst_addr: any_v4(), next_header: any_proto(), payload_len: hdr_payload_len, hop_limit: kani::any() };
         if time_exceeded {
@@ -453,20 +449,22 @@ mod v_wire_roundtrip {
         }
     }
 
-    // @harness props=C06 cfg=KW tier=q to=300 mem=4 unwind=12 opts=nomem covers=2 funcs=wire::icmpv4::Repr::emit;wire::icmpv4::Repr::parse;wire::icmpv4::Repr::buffer_len bounds=dst_unreachable_and_time_exceeded;_embedded_header_plus_exactly_8_payload_bytes;_unused_bytes_4..8_excluded_from_stale_check
+    // @harness props=C06 cfg=KW tier=q to=300 mem=4 unwind=12 opts=nomem covers=2 funcs=wire::icmpv4::Repr::emit;wire::icmpv4::Repr::parse;wire::icmpv4::Repr::buffer_len bounds=dst_unreachable_and_time_exceeded;_embedded_header_(any_payload_len)_plus_exactly_8_quoted_bytes
     #[kani::proof]
     pub(crate) fn rt_icmpv4_error() {
         // RFC 792 / Repr::parse: at least eight bytes of the offending datagram follow the embedded header
         let data: [u8; 8] = kani::any();
         let te: bool = kani::any();
-        let repr = icmpv4_error(te, &data[..], 8);
+        // embedded header: any payload length whose total length fits the 16-bit field
+        let hl = any_le(65535 - 20);
+        let repr = icmpv4_error(te, &data[..], hl);
         let n = repr.buffer_len();
         assert!(n == 36, "prop:c06_parse_of_emit_is_identity");
         let mut b1 = [0u8; 36];
         let mut b2: [u8; 36] = kani::any();
         repr.emit(&mut Icmpv4Packet::new_unchecked(&mut b1[..n]), &caps());
         repr.emit(&mut Icmpv4Packet::new_unchecked(&mut b2[..n]), &caps());
-        indep!(b1, b2, n, k => k < 4 || k >= 8);
+        indep!(b1, b2, n);
         let p = Icmpv4Packet::new_checked(&b1[..n]);
         assert!(p.is_ok(), "prop:c06_emitted_packet_passes_new_checked");
         let back = Icmpv4Repr::parse(&p.unwrap(), &caps());
@@ -475,8 +473,8 @@ mod v_wire_roundtrip {
         kani::cover!(matches!(back, Ok(Icmpv4Repr::DstUnreachable { reason: Icmpv4DstUnreachable::PortUnreachable, .. })), "port unreachable");
     }
 
-    // DstUnreachable/TimeExceeded: the 4 "unused" bytes after the checksum are never written
-    // @harness props=C06 cfg=KW tier=q kind=finding to=300 mem=4 unwind=12 opts=nomem covers=1 funcs=wire::icmpv4::Repr::emit bounds=dst_unreachable_and_time_exceeded;_bytes_4..8
+    // regression: DstUnreachable/TimeExceeded emit used not to write the 4 "unused" bytes after the checksum
+    // @harness props=C06 cfg=KW tier=q to=300 mem=4 unwind=12 opts=nomem covers=1 funcs=wire::icmpv4::Repr::emit bounds=dst_unreachable_and_time_exceeded;_bytes_4..8
     #[kani::proof]
     pub(crate) fn finding_icmpv4_error_unused_stale() {
         let data: [u8; 8] = kani::any();
@@ -491,10 +489,10 @@ mod v_wire_roundtrip {
         assert!(b1[k] == b2[k], "prop:c06_emit_independent_of_prior_buffer_contents");
     }
 
-    // An error message about a datagram longer than the quoted 8 bytes (what Interface::icmpv4_reply builds:
+    // regression: an error message about a datagram longer than the quoted 8 bytes (what Interface::icmpv4_reply builds:
     // header = the offending datagram's Ipv4Repr, data = its first bytes) is emitted with total_len > bytes present,
-    // and Repr::parse rejects it (Ipv4Packet::new_checked wants the whole embedded datagram).
-    // @harness props=C06 cfg=KW tier=q kind=finding to=300 mem=4 unwind=12 opts=nomem covers=1 funcs=wire::icmpv4::Repr::emit;wire::icmpv4::Repr::parse bounds=embedded_header_payload_len_9..=1480;_8_quoted_bytes
+    // and Repr::parse used to reject it (Ipv4Packet::new_checked wanted the whole embedded datagram).
+    // @harness props=C06 cfg=KW tier=q to=300 mem=4 unwind=12 opts=nomem covers=1 funcs=wire::icmpv4::Repr::emit;wire::icmpv4::Repr::parse bounds=embedded_header_payload_len_9..=1480;_8_quoted_bytes
     #[kani::proof]
     pub(crate) fn finding_icmpv4_error_cut_payload() {
         let data: [u8; 8] = kani::any();
@@ -508,7 +506,7 @@ mod v_wire_roundtrip {
         let p = Icmpv4Packet::new_checked(&b1[..n]);
         kani::cover!(p.is_ok(), "emitted");
         let back = Icmpv4Repr::parse(&p.unwrap(), &caps());
-        assert!(back.is_ok(), "prop:c06_parse_of_emit_is_identity");
+        assert!(back == Ok(repr), "prop:c06_parse_of_emit_is_identity");
     }
 
     // @harness props=C06 cfg=KW tier=q to=300 mem=4 unwind=20 opts=nomem covers=1 funcs=wire::icmpv4::Repr::parse;wire::icmpv4::Repr::emit bounds=arbitrary_bytes_len_0..=16_(echo_forms)
@@ -626,12 +624,7 @@ mod v_wire_roundtrip {
             let mut b2: [u8; 56] = kani::any();
             repr.emit(&src, &dst, &mut Icmpv6Packet::new_unchecked(&mut b1[..48 + DL]), &caps());
             repr.emit(&src, &dst, &mut Icmpv6Packet::new_unchecked(&mut b2[..48 + DL]), &caps());
-            if KIND == 0 || KIND == 2 {
-                // bytes 4..8 ("unused"): finding_icmpv6_error_unused_stale
-                indep!(b1, b2, 48 + DL, k => k < 4 || k >= 8);
-            } else {
-                indep!(b1, b2, 48 + DL);
-            }
+            indep!(b1, b2, 48 + DL);
             let p = Icmpv6Packet::new_checked(&b1[..48 + DL]);
             assert!(p.is_ok(), "prop:c06_emitted_packet_passes_new_checked");
             let (h, d) = match Icmpv6Repr::parse(&src, &dst, &p.unwrap(), &caps()) {
@@ -662,7 +655,7 @@ mod v_wire_roundtrip {
         }};
     }
 
-    // @harness props=C06 cfg=KW tier=q to=300 mem=4 unwind=20 opts=nomem covers=1 funcs=wire::icmpv6::Repr::emit;wire::icmpv6::Repr::parse;wire::icmpv6::Repr::buffer_len bounds=dst_unreachable;_embedded_header_plus_8_bytes;_unused_bytes_4..8_excluded_from_stale_check
+    // @harness props=C06 cfg=KW tier=q to=300 mem=4 unwind=20 opts=nomem covers=1 funcs=wire::icmpv6::Repr::emit;wire::icmpv6::Repr::parse;wire::icmpv6::Repr::buffer_len bounds=dst_unreachable;_embedded_header_plus_8_bytes
     #[kani::proof]
     pub(crate) fn rt_icmpv6_dst_unreachable() {
         icmpv6_error_rt!(0, 8);
@@ -674,7 +667,7 @@ mod v_wire_roundtrip {
         icmpv6_error_rt!(1, 8);
     }
 
-    // @harness props=C06 cfg=KW tier=t to=300 mem=4 unwind=20 opts=nomem covers=1 funcs=wire::icmpv6::Repr::emit;wire::icmpv6::Repr::parse bounds=time_exceeded;_embedded_header_only;_unused_bytes_4..8_excluded_from_stale_check
+    // @harness props=C06 cfg=KW tier=t to=300 mem=4 unwind=20 opts=nomem covers=1 funcs=wire::icmpv6::Repr::emit;wire::icmpv6::Repr::parse bounds=time_exceeded;_embedded_header_only
     #[kani::proof]
     pub(crate) fn rt_icmpv6_time_exceeded() {
         icmpv6_error_rt!(2, 0);
@@ -686,8 +679,8 @@ mod v_wire_roundtrip {
         icmpv6_error_rt!(3, 3);
     }
 
-    // DstUnreachable/TimeExceeded: the 4 "unused" bytes after the checksum are never written
-    // @harness props=C06 cfg=KW tier=q kind=finding to=300 mem=4 unwind=20 opts=nomem covers=1 funcs=wire::icmpv6::Repr::emit bounds=dst_unreachable;_bytes_4..8
+    // regression: DstUnreachable/TimeExceeded emit used not to write the 4 "unused" bytes after the checksum
+    // @harness props=C06 cfg=KW tier=q to=300 mem=4 unwind=20 opts=nomem covers=1 funcs=wire::icmpv6::Repr::emit bounds=dst_unreachable;_bytes_4..8
     #[kani::proof]
     pub(crate) fn finding_icmpv6_error_unused_stale() {
         let data: [u8; 8] = kani::any();
@@ -833,10 +826,10 @@ mod v_wire_roundtrip {
         ndisc_tail!(NdiscRepr::RouterSolicit { lladdr: Some(ll_eth()) }, 16, k => true);
     }
 
-    // @harness props=C06 cfg=KW tier=t to=300 mem=4 unwind=20 opts=nomem covers=1 funcs=wire::ndisc::Repr::emit;wire::ndisc::Repr::parse bounds=router_solicit;_802.15.4_lladdr;_option_padding_excluded_from_stale_check
+    // @harness props=C06 cfg=KW tier=t to=300 mem=4 unwind=20 opts=nomem covers=1 funcs=wire::ndisc::Repr::emit;wire::ndisc::Repr::parse bounds=router_solicit;_802.15.4_lladdr
     #[kani::proof]
     pub(crate) fn rt_ndisc_rs_ieee() {
-        ndisc_tail!(NdiscRepr::RouterSolicit { lladdr: Some(ll_ieee()) }, 24, k => k < 18);
+        ndisc_tail!(NdiscRepr::RouterSolicit { lladdr: Some(ll_ieee()) }, 24, k => true);
     }
 
     // @harness props=C06 cfg=KW tier=t to=300 mem=4 unwind=20 opts=nomem covers=1 funcs=wire::ndisc::Repr::emit;wire::ndisc::Repr::parse bounds=router_solicit;_no_option
@@ -883,10 +876,10 @@ mod v_wire_roundtrip {
         ndisc_tail!(NdiscRepr::NeighborSolicit { target_addr: any_v6(), lladdr: Some(ll_eth()) }, 32, k => true);
     }
 
-    // @harness props=C06 cfg=KW tier=t to=300 mem=4 unwind=20 opts=nomem covers=1 funcs=wire::ndisc::Repr::emit;wire::ndisc::Repr::parse bounds=neighbor_solicit;_802.15.4_lladdr;_option_padding_excluded_from_stale_check
+    // @harness props=C06 cfg=KW tier=t to=300 mem=4 unwind=20 opts=nomem covers=1 funcs=wire::ndisc::Repr::emit;wire::ndisc::Repr::parse bounds=neighbor_solicit;_802.15.4_lladdr
     #[kani::proof]
     pub(crate) fn rt_ndisc_ns_ieee() {
-        ndisc_tail!(NdiscRepr::NeighborSolicit { target_addr: any_v6(), lladdr: Some(ll_ieee()) }, 40, k => k < 34);
+        ndisc_tail!(NdiscRepr::NeighborSolicit { target_addr: any_v6(), lladdr: Some(ll_ieee()) }, 40, k => true);
     }
 
     // @harness props=C06 cfg=KW tier=q to=300 mem=4 unwind=20 opts=nomem covers=1 funcs=wire::ndisc::Repr::emit;wire::ndisc::Repr::parse;wire::ndisc::Repr::buffer_len bounds=neighbor_advert;_ethernet_lladdr;_all_flag_values
@@ -923,22 +916,22 @@ mod v_wire_roundtrip {
         ndisc_tail!(any_ra!(None, None, None), 16, k => true);
     }
 
-    // @harness props=C06 cfg=KW tier=q to=600 mem=4 unwind=20 opts=nomem covers=1 funcs=wire::ndisc::Repr::emit;wire::ndisc::Repr::parse;wire::ndisc::Repr::buffer_len;wire::ndiscoption::Repr::emit;wire::ndiscoption::Repr::parse bounds=router_advert;_ethernet_lladdr+MTU+prefix_information;_timers_and_lifetimes_0..=255_or_1800|65535|2592000|0xffffffff;_MTU_reserved_bytes_excluded_from_stale_check
+    // @harness props=C06 cfg=KW tier=q to=600 mem=4 unwind=20 opts=nomem covers=1 funcs=wire::ndisc::Repr::emit;wire::ndisc::Repr::parse;wire::ndisc::Repr::buffer_len;wire::ndiscoption::Repr::emit;wire::ndiscoption::Repr::parse bounds=router_advert;_ethernet_lladdr+MTU+prefix_information;_timers_and_lifetimes_0..=255_or_1800|65535|2592000|0xffffffff
     #[kani::proof]
     pub(crate) fn rt_ndisc_ra_all() {
-        ndisc_tail!(any_ra!(Some(ll_eth()), Some(kani::any()), Some(any_prefix_info())), 64, k => k < 26 || k >= 28);
+        ndisc_tail!(any_ra!(Some(ll_eth()), Some(kani::any()), Some(any_prefix_info())), 64, k => true);
     }
 
-    // @harness props=C06 cfg=KW tier=t to=600 mem=4 unwind=20 opts=nomem covers=1 funcs=wire::ndisc::Repr::emit;wire::ndisc::Repr::parse bounds=router_advert;_802.15.4_lladdr+prefix_information;_lladdr_padding_excluded_from_stale_check
+    // @harness props=C06 cfg=KW tier=t to=600 mem=4 unwind=20 opts=nomem covers=1 funcs=wire::ndisc::Repr::emit;wire::ndisc::Repr::parse bounds=router_advert;_802.15.4_lladdr+prefix_information
     #[kani::proof]
     pub(crate) fn rt_ndisc_ra_ieee_prefix() {
-        ndisc_tail!(any_ra!(Some(ll_ieee()), None, Some(any_prefix_info())), 64, k => k < 26 || k >= 32);
+        ndisc_tail!(any_ra!(Some(ll_ieee()), None, Some(any_prefix_info())), 64, k => true);
     }
 
-    // @harness props=C06 cfg=KW tier=t to=300 mem=4 unwind=20 opts=nomem covers=1 funcs=wire::ndisc::Repr::emit;wire::ndisc::Repr::parse bounds=router_advert;_MTU_only;_MTU_reserved_bytes_excluded_from_stale_check
+    // @harness props=C06 cfg=KW tier=t to=300 mem=4 unwind=20 opts=nomem covers=1 funcs=wire::ndisc::Repr::emit;wire::ndisc::Repr::parse bounds=router_advert;_MTU_only
     #[kani::proof]
     pub(crate) fn rt_ndisc_ra_mtu() {
-        ndisc_tail!(any_ra!(None, Some(kani::any()), None), 24, k => k < 18 || k >= 20);
+        ndisc_tail!(any_ra!(None, Some(kani::any()), None), 24, k => true);
     }
 
     // @harness props=C06 cfg=KW tier=t to=1200 mem=8 unwind=20 opts=nomem covers=1 funcs=wire::ndisc::Repr::emit;wire::ndisc::Repr::parse bounds=redirect;_no_option
@@ -1082,10 +1075,10 @@ mod v_wire_roundtrip {
         ndiscopt_tail!(NdiscOptionRepr::SourceLinkLayerAddr(ll_eth()), 8, k => true);
     }
 
-    // @harness props=C06 cfg=KW tier=t to=300 mem=4 unwind=20 opts=nomem covers=1 funcs=wire::ndiscoption::Repr::emit;wire::ndiscoption::Repr::parse bounds=target_lladdr;_802.15.4_extended;_padding_excluded_from_stale_check
+    // @harness props=C06 cfg=KW tier=t to=300 mem=4 unwind=20 opts=nomem covers=1 funcs=wire::ndiscoption::Repr::emit;wire::ndiscoption::Repr::parse bounds=target_lladdr;_802.15.4_extended
     #[kani::proof]
     pub(crate) fn rt_ndiscopt_tll_ieee() {
-        ndiscopt_tail!(NdiscOptionRepr::TargetLinkLayerAddr(ll_ieee()), 16, k => k < 10);
+        ndiscopt_tail!(NdiscOptionRepr::TargetLinkLayerAddr(ll_ieee()), 16, k => true);
     }
 
     // @harness props=C06 cfg=KW tier=q to=300 mem=4 unwind=20 opts=nomem covers=1 funcs=wire::ndiscoption::Repr::emit;wire::ndiscoption::Repr::parse;wire::ndiscoption::Repr::buffer_len bounds=prefix_information;_lifetimes_0..=255_s_or_1800|65535|2592000|0xffffffff;_all_other_field_values
@@ -1094,10 +1087,10 @@ mod v_wire_roundtrip {
         ndiscopt_tail!(NdiscOptionRepr::PrefixInformation(any_prefix_info()), 32, k => true);
     }
 
-    // @harness props=C06 cfg=KW tier=t to=300 mem=4 unwind=20 opts=nomem covers=1 funcs=wire::ndiscoption::Repr::emit;wire::ndiscoption::Repr::parse bounds=MTU;_reserved_bytes_excluded_from_stale_check
+    // @harness props=C06 cfg=KW tier=t to=300 mem=4 unwind=20 opts=nomem covers=1 funcs=wire::ndiscoption::Repr::emit;wire::ndiscoption::Repr::parse bounds=MTU
     #[kani::proof]
     pub(crate) fn rt_ndiscopt_mtu() {
-        ndiscopt_tail!(NdiscOptionRepr::Mtu(kani::any()), 8, k => k < 2 || k >= 4);
+        ndiscopt_tail!(NdiscOptionRepr::Mtu(kani::any()), 8, k => true);
     }
 
     // @harness props=C06 cfg=KW tier=q to=300 mem=4 unwind=20 opts=nomem covers=1 funcs=wire::ndiscoption::Repr::emit;wire::ndiscoption::Repr::parse;wire::ndiscoption::Repr::buffer_len bounds=redirected_header;_8_payload_bytes
@@ -1119,8 +1112,8 @@ mod v_wire_roundtrip {
         ndiscopt_tail!(NdiscOptionRepr::Unknown { type_, length: 2, data: &data[..] }, 16, k => true);
     }
 
-    // 8-byte link-layer address: the option is 16 bytes, emit writes 10 and leaves the 6 padding bytes
-    // @harness props=C06 cfg=KW tier=q kind=finding to=300 mem=4 unwind=20 opts=nomem covers=1 funcs=wire::ndiscoption::Repr::emit bounds=lladdr_option_with_802.15.4_address;_bytes_10..16
+    // regression: 8-byte link-layer address: the option is 16 bytes, emit used to write 10 and leave the 6 padding bytes
+    // @harness props=C06 cfg=KW tier=q to=300 mem=4 unwind=20 opts=nomem covers=1 funcs=wire::ndiscoption::Repr::emit bounds=lladdr_option_with_802.15.4_address;_bytes_10..16
     #[kani::proof]
     pub(crate) fn finding_ndiscopt_lladdr_padding_stale() {
         let repr = NdiscOptionRepr::SourceLinkLayerAddr(ll_ieee());
@@ -1133,8 +1126,8 @@ mod v_wire_roundtrip {
         assert!(b1[k] == b2[k], "prop:c06_emit_independent_of_prior_buffer_contents");
     }
 
-    // MTU option: the two reserved bytes are never written
-    // @harness props=C06 cfg=KW tier=q kind=finding to=300 mem=4 unwind=20 opts=nomem covers=1 funcs=wire::ndiscoption::Repr::emit bounds=MTU_option;_bytes_2..4
+    // regression: MTU option: the two reserved bytes used not to be written
+    // @harness props=C06 cfg=KW tier=q to=300 mem=4 unwind=20 opts=nomem covers=1 funcs=wire::ndiscoption::Repr::emit bounds=MTU_option;_bytes_2..4
     #[kani::proof]
     pub(crate) fn finding_ndiscopt_mtu_reserved_stale() {
         let repr = NdiscOptionRepr::Mtu(kani::any());
@@ -1147,8 +1140,8 @@ mod v_wire_roundtrip {
         assert!(b1[k] == b2[k], "prop:c06_emit_independent_of_prior_buffer_contents");
     }
 
-    // Redirected header whose length is not a multiple of 8: the padding after the quoted packet is never written
-    // @harness props=C06 cfg=KW tier=q kind=finding to=300 mem=4 unwind=20 opts=nomem covers=1 funcs=wire::ndiscoption::Repr::emit bounds=redirected_header_with_4_payload_bytes;_bytes_52..56
+    // regression: redirected header whose length is not a multiple of 8: the padding after the quoted packet used not to be written
+    // @harness props=C06 cfg=KW tier=q to=300 mem=4 unwind=20 opts=nomem covers=1 funcs=wire::ndiscoption::Repr::emit bounds=redirected_header_with_4_payload_bytes;_bytes_52..56
     #[kani::proof]
     pub(crate) fn finding_ndiscopt_redirected_padding_stale() {
         let data: [u8; 4] = kani::any();
@@ -1217,15 +1210,14 @@ mod v_wire_roundtrip {
         MldAddressRecordRepr { record_type: MldRecordType::from(kani::any::<u8>()), aux_data_len: kani::any(), num_srcs: kani::any(), mcast_addr, payload: &[] }
     }
 
-    // ReportRecordReprs is an emit-only form (parse yields Report); its buffer_len() covers the 8-byte header only and
-    // callers add the records' lengths (Interface does), so the declared length here is buffer_len() + 20 per record.
+    // ReportRecordReprs is an emit-only form (parse yields Report); buffer_len() = 8-byte header + 20 per record.
     // @harness props=C06 cfg=KW tier=q to=300 mem=4 unwind=24 opts=nomem covers=1 funcs=wire::mld::Repr::emit;wire::mld::Repr::parse;wire::mld::AddressRecordRepr::emit;wire::mld::AddressRecordRepr::parse bounds=report_built_from_2_address_records
     #[kani::proof]
     pub(crate) fn rt_mld_report_records() {
         let records = [any_mld_record(), any_mld_record()];
         let repr = MldRepr::ReportRecordReprs(&records[..]);
-        let n = repr.buffer_len() + records[0].buffer_len() + records[1].buffer_len();
-        assert!(n == 48, "prop:c06_parse_of_emit_is_identity");
+        let n = repr.buffer_len();
+        assert!(n == 48 && n == 8 + records[0].buffer_len() + records[1].buffer_len(), "prop:c06_parse_of_emit_is_identity");
         let mut b1 = [0u8; 48];
         let mut b2: [u8; 48] = kani::any();
         repr.emit(&mut Icmpv6Packet::new_unchecked(&mut b1[..]));
@@ -1249,15 +1241,16 @@ mod v_wire_roundtrip {
         }
     }
 
-    // MldRepr::ReportRecordReprs: buffer_len() ignores the records, emit writes them => emit panics on a
-    // buffer of exactly buffer_len() bytes as soon as there is one record
-    // @harness props=C06 cfg=KW tier=q kind=finding to=300 mem=4 unwind=24 opts=nomem covers=1 funcs=wire::mld::Repr::emit;wire::mld::Repr::buffer_len bounds=report_built_from_1_address_record;_buffer_of_buffer_len()_bytes
+    // regression: MldRepr::ReportRecordReprs::buffer_len() used to ignore the records that emit writes, so emit
+    // panicked on a buffer of exactly buffer_len() bytes as soon as there was one record
+    // @harness props=C06 cfg=KW tier=q to=300 mem=4 unwind=24 opts=nomem covers=1 funcs=wire::mld::Repr::emit;wire::mld::Repr::buffer_len bounds=report_built_from_1_address_record;_buffer_of_buffer_len()_bytes
     #[kani::proof]
     pub(crate) fn finding_mld_report_records_buffer_len() {
         let records = [any_mld_record()];
         let repr = MldRepr::ReportRecordReprs(&records[..]);
         let n = repr.buffer_len();
-        kani::cover!(n == 8, "declared length is the header only");
+        kani::cover!(n == 28, "declared length covers the record");
+        kani::assume(n <= 28);
         let mut b1 = [0u8; 28];
         // "prop:c06_emit_does_not_panic_on_declared_length": the obligation is the absence of a panic inside emit
         repr.emit(&mut Icmpv6Packet::new_unchecked(&mut b1[..n]));
@@ -1869,7 +1862,7 @@ mod v_wire_roundtrip {
 
     // ------------------------------------------------------------------ DNS (DnsRepr is emit-only: the packet view and Question::parse read it back)
 
-    // @harness props=C06 cfg=KW tier=q to=300 mem=4 unwind=12 opts=nomem covers=1 funcs=wire::dns::Repr::emit;wire::dns::Repr::buffer_len;wire::dns::Question::emit;wire::dns::Question::parse bounds=query;_name_of_two_labels_(3_and_2_bytes);_4-bit_opcode;_flags_word_excluded_from_stale_check
+    // @harness props=C06 cfg=KW tier=q to=300 mem=4 unwind=12 opts=nomem covers=1 funcs=wire::dns::Repr::emit;wire::dns::Repr::buffer_len;wire::dns::Question::emit;wire::dns::Question::parse bounds=query;_name_of_two_labels_(3_and_2_bytes);_4-bit_opcode
     #[kani::proof]
     pub(crate) fn rt_dns_query() {
         let l: [u8; 5] = kani::any();
@@ -1889,8 +1882,7 @@ mod v_wire_roundtrip {
         let mut b2: [u8; 24] = kani::any();
         repr.emit(&mut DnsPacket::new_unchecked(&mut b1[..]));
         repr.emit(&mut DnsPacket::new_unchecked(&mut b2[..]));
-        // bytes 2..4: finding_dns_flags_word_stale
-        indep!(b1, b2, 24, k => k < 2 || k >= 4);
+        indep!(b1, b2, 24);
         let p = DnsPacket::new_checked(&b1[..]);
         assert!(p.is_ok(), "prop:c06_emitted_packet_passes_new_checked");
         let p = p.unwrap();
@@ -1906,8 +1898,8 @@ mod v_wire_roundtrip {
         }
     }
 
-    // set_flags / set_opcode keep the bits they do not own: RCODE, Z and the top opcode bit come from the old buffer
-    // @harness props=C06 cfg=KW tier=q kind=finding to=300 mem=4 unwind=12 opts=nomem covers=1 funcs=wire::dns::Repr::emit bounds=query;_bytes_2..4
+    // regression: set_flags / set_opcode keep the bits they do not own: RCODE, Z and the top opcode bit used to come from the old buffer
+    // @harness props=C06 cfg=KW tier=q to=300 mem=4 unwind=12 opts=nomem covers=1 funcs=wire::dns::Repr::emit bounds=query;_bytes_2..4
     #[kani::proof]
     pub(crate) fn finding_dns_flags_word_stale() {
         let name = [0u8];
@@ -1932,7 +1924,6 @@ mod v_wire_roundtrip {
     // Repr::emit lays the addressing fields out as: dst PAN id, dst address, [src PAN id unless compressed], src address.
     // Fixed by the harness (not expressible / not supported by emit): security_enabled = false (the Repr cannot carry the
     // auxiliary security header the flag announces), a sequence number is present, dst_pan_id is Some.
-    // The stale-buffer check starts from garbage with a zero frame-control word: finding_ieee802154_frame_control_stale.
 
     const fn ieee_len(dst_ext: bool, src: u8, compressed: bool) -> usize {
         3 + 2 + (if dst_ext { 8 } else { 2 }) + (if compressed { 0 } else { 2 }) + (match src { 0 => 0, 1 => 2, _ => 8 })
@@ -1971,10 +1962,6 @@ mod v_wire_roundtrip {
             assert!(repr.buffer_len() == N, "prop:c06_parse_of_emit_is_identity");
             let mut b1 = [0u8; N];
             let mut b2: [u8; N] = kani::any();
-            // garbage everywhere except the frame-control word: its setters only OR bits in, and a stale
-            // PAN-id-compression bit additionally moves the source address (finding_ieee802154_frame_control_stale)
-            b2[0] = 0;
-            b2[1] = 0;
             repr.emit(&mut Ieee802154Frame::new_unchecked(&mut b1[..]));
             repr.emit(&mut Ieee802154Frame::new_unchecked(&mut b2[..]));
             indep!(b1, b2, N);
@@ -2042,8 +2029,8 @@ mod v_wire_roundtrip {
         ieee802154_rt!(version = 2, dst_ext = true, src = 2, compressed = true);
     }
 
-    // the frame-control setters only OR bits in (set_fc_bit_field) and bits 7..9 are never written
-    // @harness props=C06 cfg=KW tier=q kind=finding to=600 mem=6 unwind=12 opts=nomem covers=1 funcs=wire::ieee802154::Repr::emit bounds=2003_frame;_extended_dst+src;_frame_control_bytes_0..2
+    // regression: the frame-control setters used to only OR bits in (set_fc_bit_field) and bits 7..9 were never written
+    // @harness props=C06 cfg=KW tier=q to=600 mem=6 unwind=12 opts=nomem covers=1 funcs=wire::ieee802154::Repr::emit bounds=2003_frame;_extended_dst+src;_frame_control_bytes_0..2
     #[kani::proof]
     pub(crate) fn finding_ieee802154_frame_control_stale() {
         let repr = Ieee802154Repr {
@@ -2140,8 +2127,7 @@ mod v_wire_roundtrip {
     }
 
     // ------------------------------------------------------------------ 6LoWPAN UDP NHC
-    // With tx checksums off (ignored(), as everywhere in C06) emit writes neither the C bit (bit 2 of byte 0) nor the
-    // two checksum bytes: they are excluded here and asserted in finding_sixlowpan_udp_nhc_checksum_stale.
+    // With tx checksums off (ignored(), as everywhere in C06) emit writes a zero checksum and clears the C bit.
 
     /// class 0: no port compressible; 1: src in 0xf0xx; 2: dst in 0xf0xx (src not); 3: both in 0xf0bx
     macro_rules! udp_nhc_rt {
@@ -2164,8 +2150,7 @@ mod v_wire_roundtrip {
             let mut b2: [u8; N] = kani::any();
             repr.emit(&mut SixlowpanUdpNhcPacket::new_unchecked(&mut b1[..]), &src, &dst, 4, |buf| buf.copy_from_slice(&payload[..]), &caps());
             repr.emit(&mut SixlowpanUdpNhcPacket::new_unchecked(&mut b2[..]), &src, &dst, 4, |buf| buf.copy_from_slice(&payload[..]), &caps());
-            indep!(b1, b2, N, k => k >= 1 && (k < H - 2 || k >= H));
-            assert!(b1[0] & !0x04 == b2[0] & !0x04, "prop:c06_emit_independent_of_prior_buffer_contents");
+            indep!(b1, b2, N);
             let p = SixlowpanUdpNhcPacket::new_checked(&b1[..]);
             assert!(p.is_ok(), "prop:c06_emitted_packet_passes_new_checked");
             let p = p.unwrap();
@@ -2188,23 +2173,23 @@ mod v_wire_roundtrip {
         udp_nhc_rt!(1, 6);
     }
 
-    // destination port in 0xf0xx, source not: UdpNhcPacket::dst_port reads the first port byte instead of the third
-    // @harness props=C06 cfg=KW tier=q kind=finding to=300 mem=4 unwind=20 opts=nomem covers=1 funcs=wire::sixlowpan::nhc::UdpNhcRepr::emit;wire::sixlowpan::nhc::UdpNhcRepr::parse;wire::sixlowpan::nhc::UdpNhcPacket::dst_port bounds=destination_port_in_0xf0xx;_4_payload_bytes
+    // regression: destination port in 0xf0xx, source not: UdpNhcPacket::dst_port used to read the first port byte instead of the third
+    // @harness props=C06 cfg=KW tier=q to=300 mem=4 unwind=20 opts=nomem covers=1 funcs=wire::sixlowpan::nhc::UdpNhcRepr::emit;wire::sixlowpan::nhc::UdpNhcRepr::parse;wire::sixlowpan::nhc::UdpNhcPacket::dst_port bounds=destination_port_in_0xf0xx;_4_payload_bytes
     #[kani::proof]
     pub(crate) fn finding_sixlowpan_udp_nhc_dst_f0() {
         udp_nhc_rt!(2, 6);
     }
 
-    // both ports in 0xf0bx: set_ports combines the nibbles with `&` instead of `|`, dst_port masks with 0xff instead of 0x0f
-    // @harness props=C06 cfg=KW tier=q kind=finding to=300 mem=4 unwind=20 opts=nomem covers=1 funcs=wire::sixlowpan::nhc::UdpNhcRepr::emit;wire::sixlowpan::nhc::UdpNhcRepr::parse;wire::sixlowpan::nhc::UdpNhcPacket::set_ports;wire::sixlowpan::nhc::UdpNhcPacket::dst_port bounds=both_ports_in_0xf0bx;_4_payload_bytes
+    // regression: both ports in 0xf0bx: set_ports used to combine the nibbles with `&` instead of `|`, dst_port masked with 0xff instead of 0x0f
+    // @harness props=C06 cfg=KW tier=q to=300 mem=4 unwind=20 opts=nomem covers=1 funcs=wire::sixlowpan::nhc::UdpNhcRepr::emit;wire::sixlowpan::nhc::UdpNhcRepr::parse;wire::sixlowpan::nhc::UdpNhcPacket::set_ports;wire::sixlowpan::nhc::UdpNhcPacket::dst_port bounds=both_ports_in_0xf0bx;_4_payload_bytes
     #[kani::proof]
     pub(crate) fn finding_sixlowpan_udp_nhc_both_f0b() {
         udp_nhc_rt!(3, 4);
     }
 
-    // tx checksum off: the C ("checksum elided") bit and the checksum bytes keep the old buffer contents, so a stale
-    // C bit makes the receiver take the first two payload bytes for... nothing: it shifts the payload by two bytes
-    // @harness props=C06 cfg=KW tier=q kind=finding to=300 mem=4 unwind=20 opts=nomem covers=1 funcs=wire::sixlowpan::nhc::UdpNhcRepr::emit bounds=both_ports_inline;_byte_0_and_the_checksum_bytes
+    // regression: with tx checksums off the C ("checksum elided") bit and the checksum bytes used to keep the old
+    // buffer contents; a stale C bit shifted the payload seen by the receiver by two bytes
+    // @harness props=C06 cfg=KW tier=q to=300 mem=4 unwind=20 opts=nomem covers=1 funcs=wire::sixlowpan::nhc::UdpNhcRepr::emit bounds=both_ports_inline;_byte_0_and_the_checksum_bytes
     #[kani::proof]
     pub(crate) fn finding_sixlowpan_udp_nhc_checksum_stale() {
         let payload: [u8; 4] = kani::any();
@@ -2336,9 +2321,9 @@ mod v_wire_roundtrip {
         iphc_rt!(src = 5, dst = 8, nh_inline = false, hl_inline = false, n = 24);
     }
 
-    // a multicast destination that fits none of the compressed forms is written in full (16 bytes) but flagged DAM=0b11
-    // (8-bit form), so the receiver reads one byte: set_dst_address, last multicast branch
-    // @harness props=C06 cfg=KW tier=q kind=finding to=600 mem=8 unwind=20 opts=nomem covers=1 funcs=wire::sixlowpan::iphc::Repr::emit;wire::sixlowpan::iphc::Repr::parse;wire::sixlowpan::iphc::Repr::buffer_len bounds=link-local_src_elided;_dst_any_multicast_address_with_a_non-zero_third_byte
+    // regression: a multicast destination that fits none of the compressed forms is written in full (16 bytes) but used
+    // to be flagged DAM=0b11 (8-bit form), so the receiver read one byte: set_dst_address, last multicast branch
+    // @harness props=C06 cfg=KW tier=q to=600 mem=8 unwind=20 opts=nomem covers=1 funcs=wire::sixlowpan::iphc::Repr::emit;wire::sixlowpan::iphc::Repr::parse;wire::sixlowpan::iphc::Repr::buffer_len bounds=link-local_src_elided;_dst_any_multicast_address_with_a_non-zero_third_byte
     #[kani::proof]
     pub(crate) fn finding_iphc_multicast_full() {
         iphc_rt!(src = 3, dst = 9, nh_inline = false, hl_inline = false, n = 18);
